@@ -105,6 +105,8 @@ func vf01Err(err error) string {
 		return "res"
 	case errors.Is(err, ErrPoolExhausted):
 		return "x"
+	case strings.Contains(err.Error(), "overlaps delegation pool"):
+		return "ovl" // ReservePD*: no delegation of any pool, but overlaps a pool network
 	}
 	return "err?"
 }
